@@ -18,6 +18,13 @@ pub struct Parser<'a> {
     /// This is used in for-loop init expressions where 'in' separates
     /// the variable from the iterable (for x in obj).
     no_in: bool,
+    /// Start offsets of `(` tokens for which the speculative arrow-parameter parse already
+    /// failed. Re-parsing an enclosing construct must not repeat the attempt, otherwise an
+    /// error deep inside nested parentheses doubles the work at every level.
+    failed_arrow_starts: FxHashSet<usize>,
+    /// Result of `token_after_matching_paren` per `(` start offset (the scan is linear in the
+    /// length of the group, so it is done once per group even when the group is re-parsed).
+    paren_follow_cache: FxHashMap<usize, Option<TokenKind>>,
 }
 
 impl<'a> Parser<'a> {
@@ -29,6 +36,8 @@ impl<'a> Parser<'a> {
             current,
             previous: Token::eof(0, 1, 1),
             no_in: false,
+            failed_arrow_starts: FxHashSet::default(),
+            paren_follow_cache: FxHashMap::default(),
         }
     }
 
@@ -2974,8 +2983,34 @@ impl<'a> Parser<'a> {
             return self.parse_arrow_function_from_params(vec![], start);
         }
 
+        // Cheap look-ahead: an arrow function needs `=>` (or `: ReturnType =>`) right after the
+        // `)` that matches this `(`. If some other token follows, the speculative parameter
+        // parse below would be thrown away anyway; skipping it keeps `(a = (a = (...)))` linear
+        // instead of doubling the work at every nesting level.
+        let follow = match self.paren_follow_cache.get(&start.start) {
+            Some(cached) => cached.clone(),
+            None => {
+                let scanned = self.token_after_matching_paren();
+                self.paren_follow_cache.insert(start.start, scanned.clone());
+                scanned
+            }
+        };
+        let may_be_arrow = !matches!(
+            follow,
+            Some(kind) if !matches!(kind, TokenKind::Arrow | TokenKind::Colon)
+        );
+        let arrow_params = if may_be_arrow && !self.failed_arrow_starts.contains(&start.start) {
+            let attempt = self.try_parse_arrow_params().ok();
+            if attempt.is_none() {
+                self.failed_arrow_starts.insert(start.start);
+            }
+            attempt
+        } else {
+            None
+        };
+
         // Try to parse as arrow function params (with type annotations)
-        if let Ok(params) = self.try_parse_arrow_params() {
+        if let Some(params) = arrow_params {
             // Arrow immediately after ) -> definitely arrow function
             if self.check(&TokenKind::Arrow) {
                 return self.parse_arrow_function_from_params(params, start);
@@ -3198,6 +3233,50 @@ impl<'a> Parser<'a> {
 
         self.require_token(&TokenKind::RParen)?;
         Ok(params)
+    }
+
+    /// Called right after a `(` was consumed: scan tokens up to the matching `)` and return
+    /// the kind of the token that follows it, restoring the parser position afterwards.
+    /// Returns `None` when the scan meets a token whose lexing depends on the parse context
+    /// (regular expressions, templates), an invalid character or the end of input; callers
+    /// must then assume nothing.
+    fn token_after_matching_paren(&mut self) -> Option<TokenKind> {
+        let checkpoint = self.lexer.checkpoint();
+        let saved_current = self.current.clone();
+        let saved_previous = self.previous.clone();
+
+        let mut depth: u32 = 1;
+        let mut result = None;
+        loop {
+            match &self.current.kind {
+                TokenKind::LParen | TokenKind::LBracket | TokenKind::LBrace => depth += 1,
+                TokenKind::RParen | TokenKind::RBracket | TokenKind::RBrace => {
+                    depth -= 1;
+                    if depth == 0 {
+                        if matches!(self.current.kind, TokenKind::RParen) {
+                            self.advance();
+                            result = Some(self.current.kind.clone());
+                        }
+                        break;
+                    }
+                }
+                TokenKind::Slash
+                | TokenKind::SlashEq
+                | TokenKind::RegExp(..)
+                | TokenKind::TemplateHead(_)
+                | TokenKind::TemplateMiddle(_)
+                | TokenKind::TemplateTail(_)
+                | TokenKind::Invalid(_)
+                | TokenKind::Eof => break,
+                _ => {}
+            }
+            self.advance();
+        }
+
+        self.lexer.restore(checkpoint);
+        self.current = saved_current;
+        self.previous = saved_previous;
+        result
     }
 
     fn parse_arrow_function_from_params(
